@@ -18,6 +18,45 @@ pub enum C06Case {
     Doc(DocCase),
 }
 
+/// terminator variants (codes stored in DocCase::junk next to c03's corruption codes)
+const CR_ONE: usize = 100;
+const CRLF_ONE: usize = 101;
+const CR_ALL: usize = 102;
+
+fn cr_variant(text: &str, pos: usize, j: usize) -> Option<String> {
+    let lines: Vec<&str> = text.split_inclusive('\n').collect();
+    match j {
+        CR_ONE | CRLF_ONE => {
+            let l = lines.get(pos)?;
+            let body = l.strip_suffix('\n')?;
+            let mut out = String::new();
+            for (i, x) in lines.iter().enumerate() {
+                if i == pos {
+                    out.push_str(body);
+                    out.push_str(if j == CR_ONE { "\r" } else { "\r\n" });
+                } else {
+                    out.push_str(x);
+                }
+            }
+            Some(out)
+        }
+        CR_ALL => {
+            if pos != 0 || !text.contains('\n') {
+                return None;
+            }
+            Some(text.replace('\n', "\r"))
+        }
+        _ => None,
+    }
+}
+fn variant(text: &str, pos: usize, j: usize) -> Option<String> {
+    if j >= 100 {
+        cr_variant(text, pos, j)
+    } else {
+        crate::props::c03::corrupt(text, pos, j)
+    }
+}
+
 pub struct C06;
 
 type Content = Vec<Vec<(String, Vec<String>)>>;
@@ -103,7 +142,7 @@ impl Prop for C06 {
         "model_checking"
     }
     fn rule(&self, _t: Tier) -> String {
-        "(a) every string of C01's character-class and line-template spaces (full input tries; states = strings) is read by both readers and, when both accept, the paragraphs / names / non-blank value lines are compared, as is lossy::Paragraph::from_str; (b) every C03 document (<= k layout deviations per skeleton) must be accepted by both and read identically; (c) every single-line corruption (junk line inserted, colon deleted, indentation removed) of every k<=1 document: where both readers still accept, they must agree; non-trivial = distinct case accepted by both readers with at least one field".into()
+        "(a) every string of C01's character-class and line-template spaces (full input tries; states = strings) is read by both readers and, when both accept, the paragraphs / names / non-blank value lines are compared, as is lossy::Paragraph::from_str; (b) every C03 document (<= k layout deviations per skeleton) must be accepted by both and read identically; (c) every single-line corruption (junk line inserted, colon deleted, indentation removed) of every k<=1 document: where both readers still accept, they must agree; (d) every k<=1 document (k<=2 on the one- and two-field skeletons) with the terminator of one line (each in turn) replaced by a bare CR or by CR LF, and with all terminators replaced by CR; non-trivial = distinct case accepted by both readers with at least one field".into()
     }
     fn bounds(&self, t: Tier) -> Value {
         json!({"string_spaces": deb822_space(t).describe(), "documents": "C03 generator, same k per skeleton"})
@@ -149,6 +188,26 @@ impl Prop for C06 {
                 for i in 0..m.len() {
                     kdev_shard(&m, 1, Some(i), &mut go);
                 }
+                // carriage returns: every k<=1 document with the terminator of ONE line (each in turn) replaced by a bare
+                // CR, by CR LF, and with ALL terminators replaced by CR
+                let mut go_cr = |v: &[usize]| {
+                    if let Some(d) = render(sk, v) {
+                        let n = d.text.split_inclusive('\n').count();
+                        for pos in 0..=n {
+                            for j in [CR_ONE, CRLF_ONE, CR_ALL] {
+                                if cr_variant(&d.text, pos, j).is_some() {
+                                    f(&C06Case::Doc(DocCase { skel: sk, v: v.to_vec(), junk: Some((pos, j)), name_char: None }));
+                                }
+                            }
+                        }
+                    }
+                };
+                // (two deviations on the small skeletons: a value needs two continuation lines for a CR between them)
+                let kk = if sk.paras * sk.fields <= 2 { 2 } else { 1 };
+                kdev_shard(&m, kk, None, &mut go_cr);
+                for i in 0..m.len() {
+                    kdev_shard(&m, kk, Some(i), &mut go_cr);
+                }
             }
         }
     }
@@ -158,7 +217,7 @@ impl Prop for C06 {
             C06Case::Str(s) => (compare(&s.s, st, false), s.fresh && s.s.contains(':')),
             C06Case::Doc(d) => match (render(d.skel, &d.v), d.junk) {
                 (Some(doc), None) => (compare(&doc.text, st, true), true),
-                (Some(doc), Some((pos, j))) => match crate::props::c03::corrupt(&doc.text, pos, j) {
+                (Some(doc), Some((pos, j))) => match variant(&doc.text, pos, j) {
                     Some(text) => (compare(&text, st, false), true),
                     None => (vec![], false),
                 },
@@ -191,7 +250,7 @@ impl Prop for C06 {
             C06Case::Doc(d) => {
                 let t = render(d.skel, &d.v).map(|d| d.text).unwrap_or_default();
                 match d.junk {
-                    Some((pos, j)) => crate::props::c03::corrupt(&t, pos, j).unwrap_or(t),
+                    Some((pos, j)) => variant(&t, pos, j).unwrap_or(t),
                     None => t,
                 }
             }
